@@ -263,8 +263,16 @@ fn maybe_flip(p: Pos, rng: &mut Rng) -> Pos {
 /// Pattern generators. Each returns a valid position (retrying internally) in which a rare rule is
 /// one move away or already in force.
 pub fn pattern(rng: &mut Rng) -> (Pos, &'static str) {
+    pattern_with(rng, None)
+}
+
+/// `forced`: always draw that pattern kind (a profile's favourite), otherwise uniformly.
+pub fn pattern_with(rng: &mut Rng, forced: Option<u64>) -> (Pos, &'static str) {
     for _ in 0..200 {
-        let which = rng.below(16);
+        let which = match forced {
+            Some(k) => k,
+            None => rng.below(16),
+        };
         let mut p = Pos::empty();
         let name: &'static str;
         match which {
@@ -603,6 +611,45 @@ pub fn pattern(rng: &mut Rng) -> (Pos, &'static str) {
                     place_random(&mut p, rng, Kind::N, c);
                 }
                 p.stm = if rng.chance(1, 2) { Col::W } else { Col::B };
+                if rng.chance(1, 2) {
+                    // pawns on the edge files: a double push there has no neighbour on one side, and enemy pawns
+                    // stand on the far edge of the neighbouring ranks; the start position is the one right AFTER
+                    // such a push, so its first occurrence opens the repetition window
+                    let me = p.stm;
+                    let (home, dir) = if me == Col::W { (1, 1) } else { (6, -1) };
+                    let f = if rng.chance(1, 2) { 0 } else { 7 };
+                    // the square a one-bit shift of the push destination wraps to (h3 for a4, a5 for h4, h4 for a5, a6 for h5)
+                    if rng.chance(3, 4) {
+                        let d = mk(f, home + 2 * dir).unwrap() as i32;
+                        let w = if f == 0 { d - 1 } else { d + 1 };
+                        if (8..56).contains(&w) && p.sq[w as usize].is_none() {
+                            p.sq[w as usize] = Some((Kind::P, me.other()));
+                        }
+                    }
+                    if let Some(s) = mk(f, home) {
+                        if p.sq[s as usize].is_none() {
+                            p.sq[s as usize] = Some((Kind::P, me));
+                        }
+                    }
+                    for _ in 0..rng.range(1, 3) {
+                        // often on the far edge of the neighbouring rank (the squares a bit-shift "neighbour" test would wrap to)
+                        let ef = if rng.chance(2, 3) { 7 - f } else { f };
+                        let er = rng.range(2, 5) as i32;
+                        if let Some(s) = mk(ef, er) {
+                            if p.sq[s as usize].is_none() {
+                                p.sq[s as usize] = Some((Kind::P, me.other()));
+                            }
+                        }
+                    }
+                    if p.strict_validity_error().is_none() {
+                        let pushes: Vec<Mv> = p.legal_moves().into_iter().filter(|m| p.is_double_push(*m) && (file_of(m.from) == 0 || file_of(m.from) == 7)).collect();
+                        if !pushes.is_empty() {
+                            let m = *rng.pick(&pushes);
+                            p = p.make(m);
+                            p.halfmove = 0;
+                        }
+                    }
+                }
             }
         }
         let extra = rng.below(8) as usize;
